@@ -1445,6 +1445,131 @@ fn run_frequency_new(ctx: &mut Ctx, rep: &mut Report, index: &mut u64) {
 }
 
 // ---------------------------------------------------------------------------
+// the other implementation of the count -> frequency conversion: TRANSFAC records (lightmotif-io)
+// ---------------------------------------------------------------------------
+
+/// Rows of a TRANSFAC matrix block in the order A C T G (the alphabet's own order); fractional values are what
+/// rescaled TRANSFAC matrices hold.
+const TF_ROWS: [[f32; 4]; 8] = [
+    [1.0, 2.0, 3.0, 4.0],
+    [0.0, 0.0, 0.0, 0.0],
+    [10.0, 0.0, 0.0, 0.0],
+    [0.5, 1.5, 2.0, 0.25],
+    [0.1, 0.2, 0.3, 0.4],
+    [1000000.0, 3.0, 3.0, 1.0],
+    [7.0, 7.0, 7.0, 7.0],
+    [0.0, 0.0, 2.5, 0.0],
+];
+
+fn tf_text(rows: &[[f32; 4]]) -> String {
+    let mut t = String::from("ID x\nP0 A C T G\n");
+    for (i, r) in rows.iter().enumerate() {
+        t.push_str(&format!("{:02} {} {} {} {}\n", i + 1, r[0], r[1], r[2], r[3]));
+    }
+    t.push_str("//\n");
+    t
+}
+
+fn tf_json(rows: &[[f32; 4]], ps: &pm::PseudoSpec) -> Value {
+    json!({"kind": "transfac_record", "alphabet": "dna", "rows": rows.iter().map(|r| pm::f32s_to_json(r)).collect::<Vec<_>>(), "pseudocount": ps.json(), "text": tf_text(rows)})
+}
+
+fn check_transfac_record(rows: &[[f32; 4]], ps: &pm::PseudoSpec, fails: &mut Fails) {
+    let text = tf_text(rows);
+    let rec = match catch(|| lightmotif_io::transfac::read::<_, Dna>(std::io::Cursor::new(text.clone().into_bytes())).next()) {
+        Ok(Some(Ok(r))) => r,
+        other => {
+            push(fails, "transfac record unreadable".into(), format!("the generated record did not load: {:?}", other.map(|o| o.map(|r| r.map(|_| ()).map_err(|e| format!("{:?}", e))))));
+            return;
+        }
+    };
+    let integral = rows.iter().all(|r| r.iter().all(|x| x.fract() == 0.0));
+    // to_counts: the counts as written when they are counts, None otherwise
+    match catch(|| rec.to_counts().map(|c| c.matrix().iter().map(|r| r.to_vec()).collect::<Vec<_>>())) {
+        Err(p) => push(fails, format!("transfac to_counts panic {}", panic_class(&p)), format!("Record::to_counts panicked: {}", p)),
+        Ok(got) => {
+            let want: Option<Vec<Vec<u32>>> = if integral { Some(rows.iter().map(|r| vec![r[0] as u32, r[1] as u32, r[2] as u32, r[3] as u32, 0]).collect()) } else { None };
+            if got != want {
+                push(fails, "transfac to_counts".into(), format!("Record::to_counts() = {:?}, expected {:?}", got, want));
+            }
+        }
+    }
+    // to_freq: (value + pseudocount) / row total, row by row
+    let p = ps.reference(5);
+    let got = catch(|| match ps {
+        pm::PseudoSpec::Scalar(x) => rec.to_freq(*x),
+        pm::PseudoSpec::PerSymbol(v) => {
+            let arr: GenericArray<f32, <Dna as Alphabet>::K> = v.iter().cloned().collect();
+            rec.to_freq(arr)
+        }
+    }
+    .map(|f| f.matrix().iter().map(|r| r.to_vec()).collect::<Vec<_>>()));
+    let got = match got {
+        Err(e) => {
+            push(fails, format!("transfac to_freq panic {}", panic_class(&e)), format!("Record::to_freq panicked: {}", e));
+            return;
+        }
+        Ok(g) => g,
+    };
+    let totals: Vec<f64> = rows.iter().map(|r| r.iter().map(|&x| x as f64).sum::<f64>() + p.iter().sum::<f64>()).collect();
+    let defined = totals.iter().all(|&t| t > 0.0);
+    match got {
+        None => {
+            if defined {
+                push(fails, "transfac to_freq None".into(), format!("Record::to_freq returned None although every row has a positive total {:?}", totals));
+            }
+        }
+        Some(m) => {
+            for (i, row) in m.iter().enumerate() {
+                if !defined && totals[i] <= 0.0 {
+                    push(fails, "transfac to_freq of an empty row".into(), format!("row {} has total 0 (frequencies undefined) but to_freq returned the row {:?}", i, row));
+                    return;
+                }
+                for j in 0..5 {
+                    let v = if j < 4 { rows[i][j] as f64 } else { 0.0 };
+                    let want = (v + p[j]) / totals[i];
+                    if !((row[j] as f64 - want).abs() <= 4e-7 * want.abs().max(1e-30) + 1e-12) {
+                        push(fails, "transfac to_freq wrong frequency".into(), format!("row {} column {}: {} but (value + pseudocount) / row total = {}", i, j, row[j], want));
+                        return;
+                    }
+                }
+            }
+        }
+    }
+}
+
+fn run_transfac_record(ctx: &mut Ctx, rep: &mut Report, index: &mut u64) {
+    rep.space(
+        "transfac_record",
+        "the second implementation of count -> frequency in the workspace, lightmotif_io::transfac::Record::{to_counts, to_freq}: every TRANSFAC record of width 1..=2 over an 8-row menu (integer counts, an all-zero row, fractional values as in rescaled TRANSFAC matrices, 1e6-scale counts) \
+         x pseudocounts {0, 0.1, 1, per-symbol}; the record is produced by the library's own reader from generated text; oracle: to_counts = the counts as written (None for fractional data); to_freq = (value + pseudocount) / row total cell by cell (relative 4e-7), \
+         Some whenever every row total is positive; a row of total 0 must not come back as a row",
+    );
+    let pseudos = vec![pm::PseudoSpec::Scalar(0.0), pm::PseudoSpec::Scalar(0.1), pm::PseudoSpec::Scalar(1.0), pm::PseudoSpec::PerSymbol(vec![0.1, 0.2, 0.3, 0.4, 0.0])];
+    let mut mats: Vec<Vec<[f32; 4]>> = TF_ROWS.iter().map(|r| vec![*r]).collect();
+    for a in TF_ROWS {
+        for b in TF_ROWS {
+            mats.push(vec![a, b]);
+        }
+    }
+    for rows in &mats {
+        for ps in &pseudos {
+            let idx = *index;
+            *index += 1;
+            if !ctx.mine(idx) {
+                continue;
+            }
+            let mut fails = Fails::new();
+            check_transfac_record(rows, ps, &mut fails);
+            rep.eval_distinct(true);
+            for (sig, msg) in fails {
+                rep.violation(format!("C09 dna {}", sig), msg, || tf_json(rows, ps));
+            }
+        }
+    }
+}
+
+// ---------------------------------------------------------------------------
 // entry points
 // ---------------------------------------------------------------------------
 
@@ -1465,6 +1590,9 @@ pub fn run(ctx: &mut Ctx, rep: &mut Report) {
     }
     if ctx.wants("frequency_new") && !ctx.out_of_time() {
         run_frequency_new(ctx, rep, &mut index);
+    }
+    if ctx.wants("transfac_record") && !ctx.out_of_time() {
+        run_transfac_record(ctx, rep, &mut index);
     }
 }
 
@@ -1538,6 +1666,11 @@ pub fn replay(_ctx: &mut Ctx, rep: &mut Report, case: &Value) {
             } else {
                 check_freq_new::<Protein>(&rows, &mut fails);
             }
+        }
+        "transfac_record" => {
+            let rows: Vec<[f32; 4]> = case["rows"].as_array().unwrap().iter().map(|r| { let v = pm::f32s_from_json(r); [v[0], v[1], v[2], v[3]] }).collect();
+            let ps = pm::PseudoSpec::from_json(&case["pseudocount"]);
+            check_transfac_record(&rows, &ps, &mut fails);
         }
         k => panic!("C09 replay: unknown case kind {}", k),
     }
